@@ -52,6 +52,60 @@ def find_def(tree, qualname):
     return found[0] if len(found) == 1 else None
 
 
+def _binds(st, name):
+    """does this statement (re)bind `name` in the scope it stands in?  (compound statements: anywhere inside, except
+    in nested function / class bodies)"""
+    if isinstance(st, (ast.FunctionDef, ast.AsyncFunctionDef, ast.ClassDef)):
+        return st.name == name
+    for x in ast.walk(st):
+        if isinstance(x, ast.Name) and isinstance(x.ctx, (ast.Store, ast.Del)) and x.id == name:
+            return True
+        if isinstance(x, ast.alias) and (x.asname or x.name.split(".")[0]) == name:
+            return True
+        if isinstance(x, (ast.FunctionDef, ast.AsyncFunctionDef, ast.ClassDef)) and x.name == name:
+            return True
+    return False
+
+
+def _attr_rebinds(tree, cls, name):
+    """module-level `Cls.name = …` / `setattr(Cls, "name", …)`"""
+    n = 0
+    for st in tree.body:
+        for x in ast.walk(st):
+            if isinstance(x, ast.Attribute) and isinstance(x.ctx, (ast.Store, ast.Del)) and x.attr == name \
+                    and isinstance(x.value, ast.Name) and x.value.id == cls:
+                n += 1
+            if isinstance(x, ast.Call) and isinstance(x.func, ast.Name) and x.func.id in ("setattr", "delattr") \
+                    and len(x.args) >= 2 and isinstance(x.args[0], ast.Name) and x.args[0].id == cls \
+                    and isinstance(x.args[1], ast.Constant) and x.args[1].value == name:
+                n += 1
+    return n
+
+
+def func_shape(tree, qualname, env=None):
+    """what the symbolic reader does not look at, for one function read by a fragment:
+       (qualname, [decorators], parameter list with defaults, [statements not interpreted], number of other bindings of
+       the name(s) in the enclosing scope(s)).  A function that is not found gives a shape no theorem expects."""
+    fn = find_def(tree, qualname)
+    if fn is None:
+        return (qualname, [BAD_STR], BAD_STR, [BAD_STR], BAD_INT)
+    try:
+        decos = [_u(d) for d in fn.decorator_list]
+        params = _u(fn.args)
+        skipped = Sym(fn, env).skipped
+        parts = qualname.split(".")
+        rebinds = 0
+        body = tree.body
+        for i, part in enumerate(parts):
+            rebinds += sum(1 for st in body if _binds(st, part)) - 1          # besides the def / class itself
+            if i + 1 < len(parts):
+                rebinds += _attr_rebinds(tree, part, parts[i + 1])
+                body = [n for n in body if isinstance(n, ast.ClassDef) and n.name == part][0].body
+        return (qualname, decos, params, skipped, rebinds)
+    except Exception:  # noqa: BLE001
+        return (qualname, [BAD_STR], BAD_STR, [BAD_STR], BAD_INT)
+
+
 def safe(thunk, default=None):
     try:
         r = thunk()
@@ -121,11 +175,21 @@ class Sym:
         """`env`: initial bindings (e.g. parameter name -> a fixed label, to read a local helper independently of how
         its parameters are called)"""
         self.events = []
+        self.skipped = []        # statements the reader does not interpret (normalised text / kind), in source order
         env, _, _ = self._run(fn.body, dict(env or {}), [])
         self.env = {k: canon(v) for k, v in env.items()}
         self.events = [([(canon(c), pol) for c, pol in conds], kind, canon(e)) for conds, kind, e in self.events]
 
     # -- statements
+    def _skip(self, kind, node=None, env=None):
+        """record a statement whose effect is not modelled (fail closed: the fragments emit this list and a theorem
+        pins it to what the source had when the model was written)"""
+        try:
+            txt = "" if node is None else " " + ast.unparse(canon(_subst(node, env or {})))
+        except Exception:  # noqa: BLE001
+            txt = " ?"
+        self.skipped.append(kind + txt)
+
     def _bind(self, target, val, env):
         if isinstance(target, ast.Name):
             env[target.id] = val
@@ -141,6 +205,7 @@ class Sym:
         elif isinstance(target, (ast.Subscript, ast.Attribute)):
             root = _root_name(target)
             if root is None or root.id == "self":
+                self.skipped.append("store %s = %s" % (_u(target), _u(canon(val))))
                 return
             old = env.get(root.id, ast.Name(id=root.id, ctx=ast.Load()))
             path = copy.deepcopy(target)
@@ -199,10 +264,25 @@ class Sym:
                 mark = ast.Name(id="_in_" + type(st).__name__.lower(), ctx=ast.Load())
                 blocks = [getattr(st, "body", []), getattr(st, "orelse", []), getattr(st, "finalbody", [])]
                 blocks += [h.body for h in getattr(st, "handlers", [])]
+                self.skipped.append(type(st).__name__.lower())
                 for b in blocks:
                     self._run(b, dict(inner), conds + [(mark, True)])
                 env = inner
-            # Expr, Import, Assert, Pass, nested defs: no effect on the values read here
+            elif isinstance(st, ast.Expr):
+                if not (isinstance(st.value, ast.Constant) and isinstance(st.value.value, str)):   # not a docstring
+                    self._skip("expr", st.value, env)
+            elif isinstance(st, ast.Assert):
+                self._skip("assert", st.test, env)
+            elif isinstance(st, (ast.FunctionDef, ast.AsyncFunctionDef, ast.ClassDef)):
+                self.skipped.append("def")            # a local helper (its name is free to change)
+                env.pop(st.name, None)
+            elif isinstance(st, ast.Pass):
+                pass
+            else:                                      # import, global, nonlocal, del, match, …
+                try:
+                    self.skipped.append(type(st).__name__.lower() + " " + ast.unparse(st).replace("\n", "; "))
+                except Exception:  # noqa: BLE001
+                    self.skipped.append(type(st).__name__.lower())
         return env, conds, False
 
     # -- queries
@@ -558,6 +638,25 @@ def affine1(node):
     return None
 
 
+def poly(node, abbr=None):
+    """canonical arithmetic expression -> sum of integer multiples of products of atoms:
+       [(coefficient, [atom texts, sorted])], sorted; None when a coefficient is not an integer.
+       Atoms are the maximal sub-expressions that are not sums, differences, negations or products (calls, names,
+       subscripts, quotients, …), printed with the abbreviations `abbr`."""
+    const, terms = affine(node)
+    if const.denominator != 1:
+        return None
+    out = [(int(const), [])] if const != 0 else []
+    for c, n in terms:
+        fs = [Fraction(1), []]
+        _factors(n, fs)
+        c2 = c * fs[0]
+        if c2.denominator != 1:
+            return None
+        out.append((int(c2), sorted(text(f, abbr) for f in fs[1])))
+    return sorted(out, key=lambda t: (t[1], t[0]))
+
+
 class _Abbr(ast.NodeTransformer):
     def __init__(self, table):
         self.table = table
@@ -611,6 +710,8 @@ BAD_STR = "<anchor not found>"
 SRCOPS_FILE = ("SrcOps.lean", """/-
   GENERATED by harness/translate/_symsrc.py (shared by the fragments c05 c06 c08 c09 c14 c18) — do not edit.
 -/
+import PW.Err
+
 namespace PW.Gen
 
 /-- a comparison operator read from the source (`other`: not recognised — falsifies every tying theorem) -/
@@ -627,6 +728,35 @@ def Cmp.test {α : Type} [LT α] [LE α] [DecidableLT α] [DecidableLE α] [Deci
   | .eq, a, b => decide (a = b)
   | .ne, a, b => decide (a ≠ b)
   | .other, _, _ => false
+
+/-- an arithmetic expression read from the source: a sum of integer multiples of products of named atoms -/
+abbrev Poly := List (Int × List String)
+
+def prodOf {K : Type} [Mul K] [OfNat K 1] (env : String → K) : List String → K
+  | [] => 1
+  | f :: fs => env f * prodOf env fs
+
+/-- the value of the expression when the atoms have the values `env` -/
+def Poly.eval {K : Type} [Add K] [Mul K] [OfNat K 0] [OfNat K 1] [IntCast K] (env : String → K) : Poly → K
+  | [] => 0
+  | (c, fs) :: rest => (c : K) * prodOf env fs + Poly.eval env rest
+
+/-- an assignment of values to atom names (0 for a name that is not listed: falsifies the tying theorem) -/
+def envOf {K : Type} [OfNat K 0] : List (String × K) → String → K
+  | [], _ => 0
+  | (k, v) :: t, s => if s = k then v else envOf t s
+
+/-- Python indexing `l[i]` (negative indices count from the end) -/
+def pyGet? {α : Type} (l : List α) (i : Int) : Option α :=
+  if i < 0 then (if l.length < i.natAbs then none else l[l.length - i.natAbs]?) else l[i.toNat]?
+
+/-- the exception class with this Python name (`Other` for an unknown name: falsifies the tying theorem) -/
+def errOfName (s : String) : PW.Err :=
+  if s = "ValueError" then .ValueError else if s = "IndexError" then .IndexError
+  else if s = "KeyError" then .KeyError else if s = "AttributeError" then .AttributeError
+  else if s = "TypeError" then .TypeError else if s = "NotImplementedError" then .NotImplementedError
+  else if s = "AssertionError" then .AssertionError else if s = "LinAlgError" then .LinAlgError
+  else if s = "ZeroDivisionError" then .ZeroDivisionError else .Other
 
 end PW.Gen
 """, ["shared comparison-operator enum"])
@@ -650,7 +780,14 @@ def L_cmp(op):
 
 
 def L_bool(b):
-    return "true" if b is True else "false"
+    """three-valued: a Bool anchor that was not found is `none` (so "not found" never coincides with an expected `false`)"""
+    return "some true" if b is True else ("some false" if b is False else "none")
+
+
+def L_poly(p):
+    if p is None:
+        return "[(%d, [%s])]" % (BAD_INT, L_str(BAD_STR))
+    return "[" + ", ".join("(%d, [%s])" % (c, ", ".join(L_str(a) for a in fs)) for c, fs in p) + "]"
 
 
 def L_rat(fr):
@@ -699,7 +836,21 @@ class Out:
 
     def bool(self, ident, v, doc=None):
         self._note(ident, v)
-        self.d(ident, "Bool", L_bool(v), doc)
+        self.d(ident, "Option Bool", L_bool(v), doc)
+
+    def poly(self, ident, v, doc=None):
+        self._note(ident, v)
+        self.d(ident, "Poly", L_poly(v), doc)
+
+    def shapes(self, ident, entries, doc=None):
+        """entries: results of `func_shape`"""
+        rows = ["(%s, [%s], %s, [%s], %s)" % (L_str(q), ", ".join(L_str(x) for x in de), L_str(pa),
+                                             ", ".join(L_str(x) for x in sk), L_nat(rb))
+                for q, de, pa, sk, rb in entries]
+        if doc:
+            self.lines.append("/-- %s -/" % doc.replace("-/", "- /"))
+        self.lines.append("def %s : List (String × List String × String × List String × Nat) :=\n  [%s]"
+                          % (ident, ",\n   ".join(rows)))
 
     def rat(self, ident, v, doc=None):
         self._note(ident, v)
